@@ -81,7 +81,7 @@ class SharedTarget(doubles.ExtendedTestResult):
         super().addSkip(test, reason, details=details)
 
 
-def run_schedule(nthreads, ntests, outcomes, use_tags, ctl_calls, fault_at, schedule):
+def run_schedule(nthreads, ntests, outcomes, use_tags, ctl_calls, fault_at, schedule, tie=False):
     """schedule: list of ints consumed at choice points (then the lowest-numbered ready thread runs)."""
     pos = [0]
 
@@ -112,7 +112,8 @@ def run_schedule(nthreads, ntests, outcomes, use_tags, ctl_calls, fault_at, sche
             for n in range(ntests):
                 test = PlaceHolder("w%d.t%d" % (w, n))
                 try:
-                    f.time(("start", w, n))
+                    if not (tie and n >= 1):
+                        f.time(("start", w, n))      # tie: no clock reading in between, the test starts at the previous test's end time
                     f.startTest(test)
                     if use_tags & 1:
                         f.tags({"tag-w%d-t%d" % (w, n)}, set())
@@ -171,7 +172,8 @@ def run_schedule(nthreads, ntests, outcomes, use_tags, ctl_calls, fault_at, sche
             if a == 0 or any(e[0] != w for e in block):
                 problems.append("%s: events of another thread inside its block: %r" % (tid_test, block))
                 continue
-            if block[0][1] != "time" or block[0][2] != ("start", w, n):
+            want_start = ("end", w, n - 1) if (tie and n >= 1) else ("start", w, n)
+            if block[0][1] != "time" or block[0][2] != want_start:
                 problems.append("%s: block does not begin with its own start time: %r" % (tid_test, block[0]))
             if len(block) < 5 or block[2][1] != "time" or block[2][2] != ("end", w, n):
                 problems.append("%s: end time missing after startTest: %r" % (tid_test, block))
@@ -203,7 +205,7 @@ def run_schedule(nthreads, ntests, outcomes, use_tags, ctl_calls, fault_at, sche
 
 def h_sched(nthreads: int, ntests: int, o0: int, o1: int, use_tags: int, ctl_calls: int, fault_at: int,
             s0: int, s1: int, s2: int, s3: int, s4: int, s5: int, s6: int, s7: int, s8: int, s9: int,
-            s10: int, s11: int, s12: int, s13: int, s14: int, s15: int, depth: int) -> bool:
+            s10: int, s11: int, s12: int, s13: int, s14: int, s15: int, depth: int, tie: bool = False) -> bool:
     """
     pre: 2 <= nthreads <= 3 and 1 <= ntests <= 3 and 0 <= o0 < 4 and 0 <= o1 < 4 and 0 <= ctl_calls < 4
     pre: -1 <= fault_at < 24 and 0 <= depth <= 16 and 0 <= use_tags < 4
@@ -220,11 +222,12 @@ def h_sched(nthreads: int, ntests: int, o0: int, o1: int, use_tags: int, ctl_cal
         dp = ch.sel("depth", depth, 17)
         if v["use_tags"] not in ch.FIX.get("tagset", (0, 1, 2, 3)):
             raise ch.Prune()
+        v["tie"] = ch.cbool(tie) if ne >= 2 else False
     except ch.Prune:
         return True
     sched_vars = [s0, s1, s2, s3, s4, s5, s6, s7, s8, s9, s10, s11, s12, s13, s14, s15][:dp]
     try:
-        o = run_schedule(nt, ne, [v["o0"], v["o1"]], v["use_tags"], v["ctl_calls"], v["fault_at"], sched_vars)
+        o = run_schedule(nt, ne, [v["o0"], v["o1"]], v["use_tags"], v["ctl_calls"], v["fault_at"], sched_vars, v["tie"])
     except ch.Prune:
         return True
     v["trace"] = tuple(o["schedule_trace"])
@@ -260,8 +263,9 @@ def _shards(tier):
 
 def _describe(*a):
     nthreads, ntests, o0, o1, use_tags, ctl_calls, fault_at = a[:7]
-    depth = a[-1]
-    return run_schedule(nthreads, ntests, [o0, o1], use_tags, ctl_calls, fault_at, list(a[7:23])[:depth])
+    depth = a[23]
+    tie = bool(a[24]) if len(a) > 24 else False
+    return run_schedule(nthreads, ntests, [o0, o1], use_tags, ctl_calls, fault_at, list(a[7:23])[:depth], tie and ntests >= 2)
 
 
 HARNESSES = [
@@ -271,7 +275,8 @@ HARNESSES = [
                              "semaphore acquire/release and every call on the shared target. (A) 1 test per thread (failure / skip; tags in {none, "
                              "test-local, run-level, both}: none and both in every shard, the other two in the fault-free shards; explicit times), k = 10, the j-th call on the target raises for every j in 0..11 and no "
                              "fault; (B) additionally startTestRun before and stop/done/stopTestRun after, k = 7, faults at {none, 0, 6, "
-                             "13, 16}; (C) 2 tests per thread, k = 7, faults at {none, 5, 14}",
+                             "13, 16}; (C) 2 tests per thread, k = 7, faults at {none, 5, 14}, the second test starting "
+                             "either at its own clock reading or (tie) at the first test's end time",
                     "thorough": "two outcome pairs; (A) k = 14; (B) k = 10 with every fault position; (C) k = 10 with every fault position; "
                                 "3 threads x 1 test with k = 8 and every fault position; 2 threads x 3 tests with k = 8"},
             rule="one schedule per path; non-trivial = at least one point with more than one runnable thread",
